@@ -147,8 +147,8 @@ def sink_rule(repo, res, ty, rule="SINK"):
                 want_inside = not wrapped
                 res.check(inside == want_inside, "QCTX", f"QCTX:{fn.qname}:{what}" + (f"#{seq[k]}" if seq[k] > 1 else ""),
                           f"hole `{what}` fed by {WRAPPER if wrapped else ENCODER} sits {'inside' if inside else 'outside'} double quotes in `{s.template.strip()[:60]}`" + ("" if inside == want_inside else (": the wrapper adds its own quotes" if wrapped else ": the bare encoder adds no quotes, the value would be an unquoted DOT id")), loc)
-    res.floor("SINK-holes", n, 60)
-    res.floor("SINK-text-holes", n_text, 5)
+    res.floor("SINK-holes", n, 40)  # vacuity guards (69 / 5 today; merged templates lower both)
+    res.floor("SINK-text-holes", n_text, 3)
 
 
 def automaton_of_state(term_text, dfa_param=(2,)):
